@@ -779,12 +779,24 @@ func (e *c15Env) answer(adv *c15Peer) *c15Action {
 			}
 			desc = fmt.Sprintf("first one withheld, %d delivered", len(ds))
 		case 4:
+			mode := t.Choose(3)
 			for _, d := range have {
 				c := c15Clone(d)
-				c.Momentum.Height = e.pickU64()
+				switch mode {
+				case 0:
+					c.Momentum.Height = e.pickU64()
+				case 1: // all far below where the sync started
+					c.Momentum.Height = uint64(t.Choose(3))
+				default: // all shifted down by the same distance
+					if k := uint64(1 + t.Choose(int(e.q.Height())+2)); c.Momentum.Height > k {
+						c.Momentum.Height -= k
+					} else {
+						c.Momentum.Height = 0
+					}
+				}
 				ds = append(ds, c)
 			}
-			desc = fmt.Sprintf("%d asked blocks with other heights", len(ds))
+			desc = fmt.Sprintf("%d asked blocks with other heights (mode %d)", len(ds), mode)
 		case 5:
 			for _, d := range have {
 				c := c15Clone(d)
